@@ -32,7 +32,7 @@ from vf.ref import http1 as ref
 PROPERTY = "C24"
 LEVEL = "exploration"
 ENGINE = "sansio"
-BUDGET = {"quick": (450, 18), "thorough": (40000, 220)}
+BUDGET = {"quick": (350, 18), "thorough": (40000, 220)}
 WORKERS = {"quick": 4, "thorough": 16}
 REQUIRED = ["search.conn", "search.tunnel", "search.tls_plain", "cred.in_connect_head", "cred.in_plain_to_proxy", "cred.to_reverse_target", "forwarded.no_cred_expected"]
 TECHNIQUE = "runtime monitoring: sans-io conversations with real addons, unique-token search on every wire / tunnel / decrypted stream"
